@@ -10,11 +10,19 @@ QUICK_SIZES = [1, 2, 3, 4, 5, 7, 8, 9, 15, 16, 17, 31, 32, 33, 63, 64, 65, 127, 
 QUICK_HEAD = {1, 3, 5, 8, 16, 33, 64, 129, 255}
 
 
-def sizes_for(tier):
+QUICK_AUTO = [(2, 0), (9, 1), (64, 0), (127, 1), (128, 0), (129, 1), (200, 0), (255, 0)]
+
+
+def sizes_for(tier, prop=None):
+    """(N, root head, automatic activation)"""
     if tier == "thorough":
-        out = [(n, 0) for n in range(1, 256)] + [(n, 1) for n in range(1, 256, 2)]
+        out = [(n, 0, 0) for n in range(1, 256)] + [(n, 1, 0) for n in range(1, 256, 2)]
+        auto = [(n, n % 2, 1) for n in list(range(1, 20)) + list(range(120, 140)) + list(range(240, 256)) + [33, 64, 65, 100, 200]]
     else:
-        out = [(n, 0) for n in QUICK_SIZES] + [(n, 1) for n in sorted(QUICK_HEAD)]
+        out = [(n, 0, 0) for n in QUICK_SIZES] + [(n, 1, 0) for n in sorted(QUICK_HEAD)]
+        auto = [(n, h, 1) for n, h in QUICK_AUTO]
+    if prop != "C14":      # the automatically activated twins run the serialization passes only
+        out += auto
     out.sort(key=lambda t: -t[0])   # longest compiles first
     return out
 
@@ -23,15 +31,16 @@ def run(prop, tier, seed, verdict, tree, own_evidence=True):
     stats = {}
     sigs = set()
     samples = []
-    sizes = sizes_for(tier)
+    sizes = sizes_for(tier, prop)
     keep = tier == "quick"
     for variant in tree.header_variants():
         def one(nh):
-            n, h = nh
-            b = C.build(tree, "widemon.cpp", ["-O0", "-DWIDE_N=%d" % n, "-DWIDE_HEAD=%d" % h], variant=variant, name="widemon-%d-%d" % (n, h))
+            n, h, auto = nh
+            b = C.build(tree, "widemon.cpp", ["-O0", "-DWIDE_N=%d" % n, "-DWIDE_HEAD=%d" % h] + (["-DWIDE_AUTO=1", "-Wno-unused-function"] if auto else []), variant=variant,
+                        name="widemon-%d-%d%s" % (n, h, "-auto" if auto else ""))
             if not b.ok:
-                return nh, b, None, None
-            sig = os.path.join(verdict.outdir, "wsig-%s-%d-%d.bin" % (variant[0], n, h))
+                return (n, h), b, None, None
+            sig = os.path.join(verdict.outdir, "wsig-%s-%d-%d-%d.bin" % (variant[0], n, h, auto))
             r = C.run_monitor([b.path, "--prop", prop, "--tier", tier, "--seed", str(seed), "--sigfile", sig], timeout=1800)
             if not keep:
                 # thorough: hundreds of large binaries - do not cache them
@@ -40,7 +49,7 @@ def run(prop, tier, seed, verdict, tree, own_evidence=True):
                         os.unlink(b.path + suffix)
                     except OSError:
                         pass
-            return nh, b, r, sig
+            return (n, h), b, r, sig
 
         for (n, h), b, r, sig in C.parallel(one, sizes):
             if not b.ok:
@@ -77,7 +86,7 @@ def run(prop, tier, seed, verdict, tree, own_evidence=True):
     cov["evaluations"] = int(cov.get("evaluations", 0)) + n_eval
     cov["distinct_nontrivial"] = int(cov.get("distinct_nontrivial", 0)) + len(sigs)
     cov["samples"] = (cov.get("samples") or []) + samples
-    cov["sizes"] = sorted(stats.get("sizes", {}).keys(), key=lambda s: (int(s[:-1]), s[-1]))
+    cov["sizes"] = sorted(stats.get("sizes", {}).keys(), key=lambda s: (int("".join(ch for ch in s if ch.isdigit())), s))
     for k, v in stats.items():
         if isinstance(v, (int, float)):
             cov["wide_" + k] = v
